@@ -157,6 +157,8 @@ struct Sys {
     flavour: String,
     eager: bool,
     fund: i64,
+    /// a library getter trapped outside a host-protected call: the run ends after the current event
+    broken: std::cell::Cell<bool>,
 }
 
 fn small(v: i128) -> Value {
@@ -190,7 +192,7 @@ impl Sys {
             let a = e.register(target::Target, ());
             names.insert(t, a);
         }
-        Sys { e, names, fw, fl, flavour: flavour.to_string(), eager, fund }
+        Sys { e, names, fw, fl, flavour: flavour.to_string(), eager, fund, broken: std::cell::Cell::new(false) }
     }
 
     fn strategy(&self) -> &'static str {
@@ -225,25 +227,60 @@ impl Sys {
             };
             tg.insert(t.to_string(), ent);
         }
-        // allow-list: the enumeration entries under the library's public storage key, and its getters
-        let (cnt, at, idx, allowed, enabled) = e.as_contract(&self.fw, || {
+        // allow-list: the enumeration entries under the library's public storage key (plain reads) ...
+        let (cnt, at, idx) = e.as_contract(&self.fw, || {
             let cnt: u32 = e.storage().instance().get(&FeeAbstractionStorageKey::Count).unwrap_or(0);
             let mut at = Vec::new();
             for i in 0..SLOTS {
                 let t: Option<Address> = e.storage().persistent().get(&FeeAbstractionStorageKey::Token(i));
                 at.push(self.names.opt_name(&t));
             }
-            let (mut idx, mut allowed) = (JMap::new(), JMap::new());
+            let mut idx = JMap::new();
             for t in TOKS {
-                let ta = self.names.get(t);
-                let i: Option<u32> = e.storage().persistent().get(&FeeAbstractionStorageKey::TokenIndex(ta.clone()));
+                let i: Option<u32> =
+                    e.storage().persistent().get(&FeeAbstractionStorageKey::TokenIndex(self.names.get(t)));
                 idx.insert(t.to_string(), json!(i.map(|v| v as i64).unwrap_or(-1)));
-                allowed.insert(t.to_string(), json!(stellar_fee_abstraction::is_allowed_fee_token(e, &ta)));
             }
-            (cnt, at, idx, allowed, stellar_fee_abstraction::is_fee_token_allowlist_enabled(e))
+            (cnt, at, idx)
         });
+        // ... and the library's getters.  Neither example exposes them, so they run in a test frame of the
+        // forwarder, where the host does not catch a trap: a getter that panics (e.g. on inconsistent
+        // enumeration entries) is recorded as `getter_ok = false` and ends the run (the Env is dropped).
+        let mut allowed = JMap::new();
+        let mut enabled = false;
+        let mut getter_ok = !self.broken.get();
+        for t in TOKS {
+            allowed.insert(t.to_string(), json!(false));
+        }
+        if getter_ok {
+            let hook = std::panic::take_hook();
+            std::panic::set_hook(Box::new(|_| {}));
+            let r = std::panic::catch_unwind(std::panic::AssertUnwindSafe(|| {
+                e.as_contract(&self.fw, || {
+                    let v: Vec<bool> = TOKS
+                        .iter()
+                        .map(|t| stellar_fee_abstraction::is_allowed_fee_token(e, &self.names.get(t)))
+                        .collect();
+                    (v, stellar_fee_abstraction::is_fee_token_allowlist_enabled(e))
+                })
+            }));
+            std::panic::set_hook(hook);
+            match r {
+                Ok((v, en)) => {
+                    for (t, b) in TOKS.iter().zip(v) {
+                        allowed.insert(t.to_string(), json!(b));
+                    }
+                    enabled = en;
+                }
+                Err(_) => {
+                    getter_ok = false;
+                    self.broken.set(true);
+                }
+            }
+        }
         json!({"bal": bal, "al": al, "tg": tg,
-               "list": {"cnt": cnt, "at": at, "idx": idx, "allowed": allowed, "enabled": enabled}})
+               "list": {"cnt": cnt, "at": at, "idx": idx, "allowed": allowed, "enabled": enabled,
+                        "getter_ok": getter_ok}})
     }
 
     fn other<'a>(cur: &'a str, all: &[&'a str]) -> &'a str {
@@ -396,6 +433,9 @@ fn main() {
                 for op in &b.ops {
                     let ev = sys.step(op);
                     t.step(ev);
+                    if sys.broken.get() {
+                        break;
+                    }
                 }
             }
             t.finish();
@@ -492,6 +532,9 @@ fn main() {
                     let ev = sys.step(&op);
                     last = ev["obs"].clone();
                     t.step(ev);
+                    if sys.broken.get() {
+                        break;
+                    }
                 }
             }
             t.finish();
